@@ -311,7 +311,7 @@ func (e *permEnv) dump() string {
 	for _, id := range e.orders {
 		o, err := e.app.ExchangeKeeper.GetOrder(e.ctx, id)
 		if err == nil && o != nil {
-			os = append(os, fmt.Sprintf("%d:%d:%s", id, o.GetMarketID(), e.sym(o.GetOwner())))
+			os = append(os, fmt.Sprintf("%d:%d:%s:%s", id, o.GetMarketID(), e.sym(o.GetOwner()), JoinOr(strings.Fields(o.GetExternalID()), "")))
 		}
 	}
 	var ps []string
@@ -320,7 +320,24 @@ func (e *permEnv) dump() string {
 		return false
 	})
 	sort.Strings(ps)
-	return "grants=" + JoinOr(gs, ",") + " orders=" + JoinOr(os, ",") + " payments=" + JoinOr(ps, ",")
+	return "grants=" + JoinOr(gs, ",") + " orders=" + JoinOr(os, ",") + " payments=" + JoinOr(ps, ",") + " commits=" + JoinOr(e.committed(0), ",")
+}
+
+// committed lists the (market:account) pairs with funds committed (market 0 = both markets), sorted.
+func (e *permEnv) committed(only uint32) []string {
+	var cs []string
+	for _, m := range []uint32{1, 2} {
+		if only != 0 && m != only {
+			continue
+		}
+		for _, n := range permNames {
+			if !e.app.ExchangeKeeper.GetCommitmentAmount(e.ctx, m, e.addr[n]).IsZero() {
+				cs = append(cs, fmt.Sprintf("%d:%s", m, n))
+			}
+		}
+	}
+	sort.Strings(cs)
+	return cs
 }
 
 // exec runs one op line against the real code and returns the canonical impl output.
@@ -370,15 +387,11 @@ func (e *permEnv) exec(op string) string {
 				Inputs: []exchange.AccountAmount{{Account: a, Amount: amt}}, Outputs: []exchange.AccountAmount{{Account: a, Amount: amt}}}
 			msg, f = mm, func(ctx sdk.Context) error { _, err := e.srv.MarketCommitmentSettle(ctx, mm); return err }
 		case "MarketReleaseCommitments":
-			mm := &exchange.MsgMarketReleaseCommitmentsRequest{Admin: admin, MarketId: m, ToRelease: []exchange.AccountAmount{{Account: a}}}
+			// guard probe only (names an account that never commits); releases of real commitments are `release` ops
+			mm := &exchange.MsgMarketReleaseCommitmentsRequest{Admin: admin, MarketId: m, ToRelease: []exchange.AccountAmount{{Account: e.addr["GOV"].String()}}}
 			msg, f = mm, func(ctx sdk.Context) error { _, err := e.srv.MarketReleaseCommitments(ctx, mm); return err }
 		case "MarketSetOrderExternalID":
-			oid := uint64(900003)
-			for _, id := range e.orders {
-				if o, err := k.GetOrder(e.ctx, id); err == nil && o != nil && o.GetMarketID() == m {
-					oid = id
-				}
-			}
+			oid := uint64(900003) // guard probe only; requests naming a real order are `setid` ops
 			e.flip = !e.flip
 			mm := &exchange.MsgMarketSetOrderExternalIDRequest{Admin: admin, MarketId: m, OrderId: oid, ExternalId: fmt.Sprintf("ext-%v-%d", e.flip, oid)}
 			msg, f = mm, func(ctx sdk.Context) error { _, err := e.srv.MarketSetOrderExternalID(ctx, mm); return err }
@@ -477,12 +490,81 @@ func (e *permEnv) exec(op string) string {
 			return "bad-op"
 		}
 		return e.execGov(ws)
+	case "setid": // setid <market named in the request> <order id> <caller> <external id>
+		if len(ws) != 5 {
+			return "bad-op"
+		}
+		var m uint32
+		var id uint64
+		fmt.Sscan(ws[1], &m)
+		fmt.Sscan(ws[2], &id)
+		ext := ws[4]
+		if ext == "-" {
+			ext = ""
+		}
+		msg := &exchange.MsgMarketSetOrderExternalIDRequest{Admin: e.T(ws[3]), MarketId: m, OrderId: id, ExternalId: ext}
+		return run(msg, ws[3], func(ctx sdk.Context) error { _, err := e.srv.MarketSetOrderExternalID(ctx, msg); return err })
+	case "settle": // settle <market named> <ask id> <bid id> <caller>: a probe, never written
+		if len(ws) != 5 {
+			return "bad-op"
+		}
+		var m uint32
+		var ask, bid uint64
+		fmt.Sscan(ws[1], &m)
+		fmt.Sscan(ws[2], &ask)
+		fmt.Sscan(ws[3], &bid)
+		msg := &exchange.MsgMarketSettleRequest{Admin: e.T(ws[4]), MarketId: m, AskOrderIds: []uint64{ask}, BidOrderIds: []uint64{bid}}
+		if !e.signerOK(msg, ws[4]) {
+			return "err:signer-mismatch"
+		}
+		var herr error
+		_, pan := Try(e.ctx, func(ctx sdk.Context) error {
+			_, herr = e.srv.MarketSettle(ctx, msg)
+			return fmt.Errorf("never write settle probes")
+		})
+		if pan != "" {
+			return "panic:" + pan
+		}
+		if r := permClass(herr); r == "err:perm" {
+			return r
+		} else {
+			return "pass #" + r
+		}
+	case "commit": // commit <market> <account>: the account commits funds of its own
+		if len(ws) != 3 {
+			return "bad-op"
+		}
+		var m uint32
+		fmt.Sscan(ws[1], &m)
+		if _, ok := e.addr[ws[2]]; !ok {
+			return "bad-op"
+		}
+		return permClass(e.commit(m, ws[2]))
+	case "release": // release <market> <caller> <account|account…>: everything those accounts committed
+		if len(ws) != 4 {
+			return "bad-op"
+		}
+		var m uint32
+		fmt.Sscan(ws[1], &m)
+		msg := &exchange.MsgMarketReleaseCommitmentsRequest{Admin: e.T(ws[2]), MarketId: m}
+		for _, n := range strings.Split(ws[3], "|") {
+			ad, ok := e.addr[n]
+			if !ok {
+				return "bad-op"
+			}
+			msg.ToRelease = append(msg.ToRelease, exchange.AccountAmount{Account: ad.String()})
+		}
+		return run(msg, ws[2], func(ctx sdk.Context) error { _, err := e.srv.MarketReleaseCommitments(ctx, msg); return err })
 	case "order":
 		// replay of an `order` line: create an equivalent real order (ids may differ in replays of
 		// hand-written files; generated files carry the id the chain assigned)
 		var m uint32
 		fmt.Sscan(ws[2], &m)
-		id, err := e.createOrder(m, ws[3])
+		kind := "ask"
+		if len(ws) > 4 {
+			kind = ws[4]
+		}
+		id, err := e.createOrder(m, ws[3], kind)
 		if err != nil {
 			return "err:invalid"
 		}
@@ -494,9 +576,30 @@ func (e *permEnv) exec(op string) string {
 	return "bad-op"
 }
 
-func (e *permEnv) createOrder(m uint32, owner string) (uint64, error) {
+// commit has an account commit two apples to a market (MsgCommitFundsRequest through the msg server).
+func (e *permEnv) commit(m uint32, acct string) error {
+	msg := &exchange.MsgCommitFundsRequest{Account: e.addr[acct].String(), MarketId: m, Amount: sdk.NewCoins(sdk.NewInt64Coin("apple", 2))}
+	if !e.signerOK(msg, acct) {
+		return fmt.Errorf("signer mismatch")
+	}
+	err, pan := Try(e.ctx, func(ctx sdk.Context) error { _, err := e.srv.CommitFunds(ctx, msg); return err })
+	if pan != "" {
+		return fmt.Errorf("panic %s", pan)
+	}
+	return err
+}
+
+func (e *permEnv) createOrder(m uint32, owner, kind string) (uint64, error) {
 	var id uint64
 	err, pan := Try(e.ctx, func(ctx sdk.Context) error {
+		if kind == "bid" {
+			resp, err := e.srv.CreateBid(ctx, &exchange.MsgCreateBidRequest{BidOrder: exchange.BidOrder{
+				MarketId: m, Buyer: e.T(owner), Assets: sdk.NewInt64Coin("apple", 3), Price: sdk.NewInt64Coin("usdx", 7)}})
+			if err == nil {
+				id = resp.OrderId
+			}
+			return err
+		}
 		resp, err := e.srv.CreateAsk(ctx, &exchange.MsgCreateAskRequest{AskOrder: exchange.AskOrder{
 			MarketId: m, Seller: e.T(owner), Assets: sdk.NewInt64Coin("apple", 3), Price: sdk.NewInt64Coin("usdx", 7)}})
 		if err == nil {
@@ -509,6 +612,7 @@ func (e *permEnv) createOrder(m uint32, owner string) (uint64, error) {
 	}
 	if err == nil {
 		e.orders = append(e.orders, id)
+		e.ordInfo[id] = kind
 	}
 	return id, err
 }
@@ -903,9 +1007,25 @@ func drivePerm(t *testing.T, rng *RNG, n int, out *Out) {
 				out.Count("gov-end:" + r[i+1:])
 			}
 		}
+		// a new ask or bid order in either market, owner spelled either way
+		newOrder := func() (uint64, bool) {
+			m := uint32(1 + rng.Intn(2))
+			owner := permSpell(rng, Pick(rng, permNames), 25)
+			kind := Pick(rng, []string{"ask", "bid"})
+			id, err := e.createOrder(m, owner, kind)
+			if err != nil {
+				if strings.HasSuffix(owner, "^") {
+					out.Count("spelling:order-owner-upper-refused")
+				}
+				return 0, false
+			}
+			out.Count("op:order:" + kind)
+			out.Emit(fmt.Sprintf("order %d %d %s %s", id, m, owner, kind), "ok")
+			return id, true
+		}
 		for s := 0; s < steps; s++ {
 			switch k := rng.Intn(100); {
-			case k < 35: // permissions update
+			case k < 30: // permissions update
 				m := uint32(1 + rng.Intn(2))
 				admin := Pick(rng, callers)
 				if rng.Chance(55) {
@@ -974,7 +1094,7 @@ func drivePerm(t *testing.T, rng *RNG, n int, out *Out) {
 				}
 				emit(fmt.Sprintf("perms admin=%s m=%d revokeall=%s revoke=%s grant=%s", admin, m, JoinOr(ra, "|"), JoinOr(rv, "|"), JoinOr(gr, "|")))
 				emit("dump")
-			case k < 70:
+			case k < 55:
 				m := uint32(1 + rng.Intn(2))
 				caller := Pick(rng, callers)
 				ep := Pick(rng, permEndpoints)
@@ -987,6 +1107,37 @@ func drivePerm(t *testing.T, rng *RNG, n int, out *Out) {
 					}
 				}
 				caller = permSpell(rng, caller, 30)
+				if rng.Chance(10) {
+					ep = "MarketSettle"
+				}
+				if ep == "MarketSettle" && rng.Chance(70) {
+					// a settlement naming a live ask and a live bid of the history, of whatever market
+					var asks, bids []uint64
+					for _, oid := range e.orders {
+						if o, err := e.app.ExchangeKeeper.GetOrder(e.ctx, oid); err == nil && o != nil {
+							if o.IsAskOrder() {
+								asks = append(asks, oid)
+							} else {
+								bids = append(bids, oid)
+							}
+						}
+					}
+					if len(asks) > 0 && len(bids) > 0 {
+						ask, bid := Pick(rng, asks), Pick(rng, bids)
+						ao, _ := e.app.ExchangeKeeper.GetOrder(e.ctx, ask)
+						bo, _ := e.app.ExchangeKeeper.GetOrder(e.ctx, bid)
+						if rng.Chance(50) {
+							m = ao.GetMarketID()
+						}
+						where := "other-market"
+						if ao.GetMarketID() == m && bo.GetMarketID() == m {
+							where = "named-market"
+						}
+						r := emit(fmt.Sprintf("settle %d %d %d %s", m, ask, bid, caller))
+						out.Count("settle:" + where + ":" + r)
+						break
+					}
+				}
 				r := emit(fmt.Sprintf("call %s %d %s", ep, m, caller))
 				if strings.HasSuffix(caller, "^") {
 					out.Count("spelling:caller-upper:" + strings.Fields(r)[0])
@@ -1000,16 +1151,149 @@ func drivePerm(t *testing.T, rng *RNG, n int, out *Out) {
 					hr := emit(fmt.Sprintf("hasperm %d %s %s", m, who, Pick(rng, permPermNames)))
 					out.Count("spelling:hasperm:" + hr)
 				}
-			case k < 78:
-				m := uint32(1 + rng.Intn(2))
-				owner := permSpell(rng, Pick(rng, permNames), 25)
-				id, err := e.createOrder(m, owner)
-				if err == nil {
-					out.Count("op:order")
-					out.Emit(fmt.Sprintf("order %d %d %s", id, m, owner), "ok")
-				} else if strings.HasSuffix(owner, "^") {
-					out.Count("spelling:order-owner-upper-refused")
+			case k < 63:
+				// an external id for an order of the history: the order may live in the market the
+				// request names or in the OTHER one; the caller holds set_ids in the named market,
+				// in the order's market, owns the order, or is anybody
+				var live []uint64
+				for _, oid := range e.orders {
+					if o, err := e.app.ExchangeKeeper.GetOrder(e.ctx, oid); err == nil && o != nil {
+						live = append(live, oid)
+					}
 				}
+				if len(live) == 0 || rng.Chance(25) {
+					if nid, ok := newOrder(); ok {
+						live = append(live, nid)
+					}
+				}
+				id, om := uint64(900003), uint32(0)
+				owner := ""
+				if len(live) > 0 && rng.Chance(92) {
+					id = Pick(rng, live)
+					o, _ := e.app.ExchangeKeeper.GetOrder(e.ctx, id)
+					om, owner = o.GetMarketID(), permBase(e.sym(o.GetOwner()))
+				}
+				m := uint32(1 + rng.Intn(2))
+				if om != 0 && rng.Chance(50) {
+					m = om
+				}
+				holders := func(mk uint32) []string {
+					var hs []string
+					for _, ag := range e.app.ExchangeKeeper.GetAccessGrants(e.ctx, mk) {
+						for _, p := range ag.Permissions {
+							if p == exchange.Permission_set_ids {
+								hs = append(hs, e.sym(ag.Address))
+							}
+						}
+					}
+					return hs
+				}
+				caller := Pick(rng, callers)
+				switch x := rng.Intn(10); {
+				case x < 5:
+					if hs := holders(m); len(hs) > 0 {
+						caller = Pick(rng, hs)
+					}
+				case x < 7:
+					if hs := holders(om); om != 0 && len(hs) > 0 {
+						caller = Pick(rng, hs)
+					}
+				case x < 8 && owner != "" && owner != "?":
+					caller = owner
+				}
+				switch {
+				case om == 0:
+					out.Count("setid:no-such-order")
+				case om == m:
+					out.Count("setid:order-in-named-market")
+				default:
+					out.Count("setid:order-in-other-market")
+				}
+				r := emit(fmt.Sprintf("setid %d %d %s %s", m, id, permSpell(rng, caller, 20), Pick(rng, []string{"e0", "e1", "e2", "e3", "-"})))
+				out.Count("setid:" + r)
+				emit("dump")
+			case k < 73:
+				// committed funds: an account commits, the market stops (or resumes) accepting
+				// commitments, and somebody asks for a release: a holder of cancel, the owner of the
+				// funds for itself, the owner for others, or anybody
+				m := uint32(1 + rng.Intn(2))
+				toggle := func() {
+					emit(fmt.Sprintf("call MarketUpdateAcceptingCommitments %d GOV", m))
+				}
+				have := e.committed(m)
+				if len(have) == 0 || rng.Chance(35) {
+					if !e.app.ExchangeKeeper.IsMarketAcceptingCommitments(e.ctx, m) {
+						toggle()
+					}
+					acct := Pick(rng, permNames)
+					if err := e.commit(m, acct); err == nil {
+						out.Count("op:commit")
+						out.Emit(fmt.Sprintf("commit %d %s", m, acct), "ok")
+						emit("dump")
+					} else {
+						out.Count("commit:refused")
+					}
+					have = e.committed(m)
+				}
+				if rng.Chance(30) {
+					break
+				}
+				// the state the market is in when the release is asked for
+				if rng.Chance(50) == e.app.ExchangeKeeper.IsMarketAcceptingCommitments(e.ctx, m) {
+					toggle()
+				}
+				var owners []string
+				for _, c := range have {
+					owners = append(owners, strings.SplitN(c, ":", 2)[1])
+				}
+				caller := Pick(rng, callers)
+				switch x := rng.Intn(10); {
+				case x < 5 && len(owners) > 0:
+					caller = Pick(rng, owners)
+				case x < 8:
+					var hs []string
+					for _, ag := range e.app.ExchangeKeeper.GetAccessGrants(e.ctx, m) {
+						for _, p := range ag.Permissions {
+							if p == exchange.Permission_cancel {
+								hs = append(hs, e.sym(ag.Address))
+							}
+						}
+					}
+					if len(hs) > 0 {
+						caller = Pick(rng, hs)
+					}
+				}
+				var accts []string
+				if contains(owners, caller) && rng.Chance(65) {
+					accts = []string{caller}
+				} else {
+					pool := owners
+					if len(pool) == 0 || rng.Chance(15) {
+						pool = permNames
+					}
+					accts = []string{Pick(rng, pool)}
+					if x := Pick(rng, pool); x != accts[0] && rng.Chance(40) {
+						accts = append(accts, x)
+					}
+				}
+				standing := "other"
+				if caller == "GOV" {
+					standing = "authority"
+				} else if contains(owners, caller) {
+					standing = "owner"
+					if len(accts) == 1 && accts[0] == caller {
+						standing = "owner-own-funds"
+					}
+				}
+				accepting := "accepting"
+				if !e.app.ExchangeKeeper.IsMarketAcceptingCommitments(e.ctx, m) {
+					accepting = "not-accepting"
+				}
+				r := emit(fmt.Sprintf("release %d %s %s", m, permSpell(rng, caller, 20), strings.Join(accts, "|")))
+				out.Count("release:" + standing + ":" + accepting + ":" + r)
+				emit("dump")
+			case k < 79:
+				newOrder()
 			case k < 86:
 				var id uint64 = 900009
 				var live []uint64
@@ -1028,11 +1312,7 @@ func drivePerm(t *testing.T, rng *RNG, n int, out *Out) {
 				} else if len(e.orders) > 0 && rng.Chance(50) {
 					id = Pick(rng, e.orders)
 				} else if rng.Chance(80) {
-					m := uint32(1 + rng.Intn(2))
-					owner := permSpell(rng, Pick(rng, permNames), 25)
-					if nid, err := e.createOrder(m, owner); err == nil {
-						out.Count("op:order")
-						out.Emit(fmt.Sprintf("order %d %d %s", nid, m, owner), "ok")
+					if nid, ok := newOrder(); ok {
 						id = nid
 					}
 				}
